@@ -45,8 +45,9 @@ def write_inputs(case, d):
             p = os.path.join(d, f"in{i}.csv")
             with open(p, "w", newline="", encoding="utf-8") as fh:
                 w = csv.writer(fh, delimiter=case["sep"])
-                for a, s, e, l in f["units"]:
-                    w.writerow([a, l, s, e])
+                for _rep in range(f.get("repeat", 1)):       # repeated rows: the same continuum, much slower to parse
+                    for a, s, e, l in f["units"]:
+                        w.writerow([a, l, s, e])
         else:
             p = os.path.join(d, f"in{i}.rttm")
             with open(p, "w", encoding="utf-8") as fh:
@@ -239,6 +240,8 @@ def cases(draw):
                 units.append([a, t, t + dd, draw(st.sampled_from(labels))])
                 t += dd + draw(gen.dyadic(0.25, 4))
         files.append({"units": units, "in_dir": draw(st.integers(0, 5)) == 0})
+    if len(files) > 1 and fmt == "csv" and draw(st.integers(0, 4)) == 0:
+        files[0]["repeat"] = 1500      # a first file that takes far longer to read than the following ones
     opts = {
         "a": draw(st.sampled_from([1, 1, 0.5, 2.0, 0.0, 3.0])),
         "b": draw(st.sampled_from([1, 1, 0.5, 2.0, 3.0, 0.0])),
